@@ -32,28 +32,36 @@ package ast
 //@   requires v != nil && !typednil(n) && astNode(n)
 //@   assume_loads childOK
 
-// spans of nodes whose position is computed from a list element (C04)
+// spans of nodes whose position is computed from a list element (C04); list elements are
+// assumed to be proper nodes (parser invariant), the lists themselves may be empty
+//@ spec elemOK(n Node) bool = !isnil(n) && !typednil(n)
 //@ func (*Program).Idx0
 //@   props C04
 //@   safety C04
+//@   assume_loads elemOK
 //@   requires p != nil
 //@ func (*Program).Idx1
 //@   props C04
 //@   safety C04
+//@   assume_loads elemOK
 //@   requires p != nil
 //@ func (*CaseStatement).Idx1
 //@   props C04
 //@   safety C04
+//@   assume_loads elemOK
 //@   requires cs != nil
 //@ func (*SequenceExpression).Idx0
 //@   props C04
 //@   safety C04
+//@   assume_loads elemOK
 //@   requires se != nil
 //@ func (*SequenceExpression).Idx1
 //@   props C04
 //@   safety C04
+//@   assume_loads elemOK
 //@   requires se != nil
 //@ func (*VariableStatement).Idx1
 //@   props C04
 //@   safety C04
+//@   assume_loads elemOK
 //@   requires vs != nil && len(vs.List) >= 1
